@@ -143,3 +143,13 @@ def _load_extra():
 
 
 _load_extra()
+
+# W-PIPE halves of properties whose other half lives in another world's registry file
+_EXTRA_BATCHES = {
+    'C18': [pipe('pipe-history', 700, 30000, prop='C18', faults=False, events=12, outcome=dict(success=4, failure=2, invalid=2)),
+            pipe('pipe-history-faults', 400, 20000, prop='C18', faults=True, net=True, events=12, mix=MIX_UPDATE, record_on_run=True)],
+    'C20': [dict(name='pipe-timers', world='worlds.timer', cfg=dict(prop='C20', faults=False), runs=dict(quick=500, thorough=20000))],
+}
+for _pid, _bs in _EXTRA_BATCHES.items():
+    if _pid in PROPS:
+        PROPS[_pid]['batches'] = list(PROPS[_pid]['batches']) + _bs
